@@ -323,6 +323,55 @@ fn api_lines(args: &[String]) {
     println!("OK {}", n);
 }
 
+/// api sortdocs <corpus-file> : C14 on the public API, bounded.  For every document that loads strictly: sort it and
+/// serialize (S0; sorting again must not change it, and every element path must still resolve).  Then, for every
+/// element whose type is not order-relevant and every pair of adjacent sub-elements of it, swap the pair through the
+/// public API in a fresh copy, sort, serialize: the text must be S0 again (the result does not depend on the previous order).
+fn api_sortdocs(args: &[String]) {
+    let text = std::fs::read_to_string(&args[0]).unwrap();
+    api_sortdocs_text(&text);
+}
+
+fn api_sortdocs_text(text: &str) {
+    use autosar_data::*;
+    let mut n = 0u64;
+    for line in text.lines() {
+        let doc = unhex(line.trim_start_matches('!').trim());
+        let load = |d: &[u8]| -> Option<AutosarModel> {
+            let m = AutosarModel::new();
+            match m.load_buffer(d, "f.arxml", true) { Ok((_, w)) if w.is_empty() => Some(m), _ => None }
+        };
+        let Some(m0) = load(&doc) else { continue };
+        let paths: Vec<String> = m0.identifiable_elements().map(|(p, _)| p).collect();
+        let count = m0.elements_dfs().count();
+        m0.sort();
+        let s0 = m0.root_element().serialize();
+        m0.sort();
+        n += 1;
+        if m0.root_element().serialize() != s0 { println!("FAIL sorting twice differs from sorting once :: document {}", hex(&doc)); return; }
+        if m0.elements_dfs().count() != count { println!("FAIL sorting changed the number of elements :: document {}", hex(&doc)); return; }
+        for p in &paths { if m0.get_element_by_path(p).is_none() { println!("FAIL path {} no longer resolves after sorting :: document {}", p, hex(&doc)); return; } }
+        for k in 0..count {
+            let nsubs = { let m = load(&doc).unwrap(); let (_, parent) = m.elements_dfs().nth(k).unwrap(); if parent.element_type().is_ordered() { 0 } else { parent.sub_elements().count() } };
+            for i in 0..nsubs.saturating_sub(1) {
+                let m = load(&doc).unwrap();
+                let (_, parent) = m.elements_dfs().nth(k).unwrap();
+                let subs: Vec<Element> = parent.sub_elements().collect();
+                if parent.move_element_here_at(&subs[i + 1], i).is_err() { continue; }
+                m.sort();
+                let s = m.root_element().serialize();
+                n += 1;
+                if s != s0 {
+                    println!("FAIL sorted result depends on the previous order: swapping sub-elements {} and {} of <{}> (element #{} in document order) before sorting gives a different sorted text :: document {}",
+                             i, i + 1, parent.element_name(), k, hex(&doc));
+                    return;
+                }
+            }
+        }
+    }
+    println!("OK {}", n);
+}
+
 pub fn command(cmd: &str, args: &[String]) {
     match cmd {
         "api" if args.get(0).map(|s| s.as_str()) == Some("strictlenient") => api_strict_lenient(&args[1..]),
@@ -330,6 +379,8 @@ pub fn command(cmd: &str, args: &[String]) {
             match strict_lenient_one(&unhex(&args[1])) { Ok(()) => println!("{{\"outcome\":\"ok\"}}"), Err(e) => println!("{{\"outcome\":\"panic\",\"message\":{:?}}}", e) }
         }
         "api" if args.get(0).map(|s| s.as_str()) == Some("sort3") => api_sort3(&args[1..]),
+        "api" if args.get(0).map(|s| s.as_str()) == Some("sortdocs") => api_sortdocs(&args[1..]),
+        "api" if args.get(0).map(|s| s.as_str()) == Some("sortdocs1") => api_sortdocs_text(&args[1]),
         "api" if args.get(0).map(|s| s.as_str()) == Some("lines") => api_lines(&args[1..]),
         "api" if args.get(0).map(|s| s.as_str()) == Some("lines1") => {
             match lines_one(&unhex(&args[1])) { Ok(()) => println!("{{\"outcome\":\"ok\"}}"), Err(e) => println!("{{\"outcome\":\"panic\",\"message\":{:?}}}", e) }
